@@ -50,6 +50,11 @@ where
         let bytes = application_message.into_bytes();
         let mut rumor: UnsignedEvent = UnsignedEvent::from_json(bytes)?;
 
+        // The id inside the decrypted rumor is chosen by the sender and is the key the message
+        // is stored under. Only accept it if it is the NIP-01 hash of the rumor's own fields,
+        // otherwise a member could overwrite another member's stored message.
+        rumor.verify_id()?;
+
         self.verify_rumor_author(&rumor.pubkey, sender_credential)?;
 
         let rumor_id: EventId = rumor.id();
